@@ -256,12 +256,15 @@ func (_this *Context) ValidateIdentifier(data []uint8) {
 func (_this *Context) ValidateFullArrayAnyType(arrayType events.ArrayType, elementCount uint64, data []uint8) {
 	switch arrayType {
 	case events.ArrayTypeString:
+		_this.ValidateByteCountForType(arrayType, elementCount, uint64(len(data)))
 		_this.ValidateLengthString(uint64(len(data)))
 		_this.ValidateContentsString(data)
 	case events.ArrayTypeResourceID, events.ArrayTypeReferenceRemote:
+		_this.ValidateByteCountForType(arrayType, elementCount, uint64(len(data)))
 		_this.ValidateLengthRID(uint64(len(data)))
 		_this.ValidateContentsRID(data)
 	case events.ArrayTypeCustomText:
+		_this.ValidateByteCountForType(arrayType, elementCount, uint64(len(data)))
 		_this.ValidateLengthAnyType(uint64(len(data)))
 		_this.ValidateContentsString(data)
 	default:
